@@ -328,7 +328,9 @@ def run_case(spec, sub=None):
     def score_of(tree):
         if spec["kind"] == "hyper":
             return tree.get_score(spec["minimize"])
-        return math.log10(max(tree.total_flops(), 1))
+        # random-greedy: entries carry the score of the tree under its
+        # objective ('flops'), the quantity update_from_tree stores too
+        return tree.get_score("flops")
 
     try:
         objs = {}
@@ -368,12 +370,6 @@ def run_case(spec, sub=None):
             # what was asked, frozen (the containers may be edited later)
             asked_inputs, asked_output, asked_sizes = tuple(map(tuple, inputs)), tuple(output), dict(sizes)
 
-            if op["op"] == "update_from_tree" and spec["kind"] != "hyper":
-                # update_from_tree stores the tree's own objective score while
-                # the random-greedy optimizer stores log10(flops): comparing
-                # the two is not specified, so this op is only used with the
-                # hyper optimizer
-                continue
             if op["op"] == "update_from_tree":
                 ok, tree = guarded(
                     ctg.array_contract_tree, inputs, output, sizes,
@@ -384,6 +380,16 @@ def run_case(spec, sub=None):
                     break
                 if spec["kind"] == "hyper":
                     tree.set_default_objective(spec["minimize"])
+                if op["seed"] % 3 == 0 and not (spec["kind"] == "hyper" and spec["slicing"]):
+                    # 'for example, if you have manually improved it': a tree
+                    # the caller sliced; the entry then carries sliced labels
+                    cand = [
+                        ix for ix in sorted(asked_sizes, key=str)
+                        if sum(ix in t for t in asked_inputs) >= 2 and asked_sizes[ix] > 1
+                    ]
+                    if cand:
+                        tree.remove_ind_(cand[op["seed"] % len(cand)])
+                        cls.append("update_from_sliced_tree")
                 before = stored_score_on_disk(q)
                 ok, r = guarded(opt.update_from_tree, tree, overwrite=op["uft_overwrite"])
                 if not ok:
@@ -451,7 +457,7 @@ def run_case(spec, sub=None):
                     tuple(map(tuple, tree.inputs)) != asked_inputs or tuple(tree.output) != asked_output
                 ):
                     viol.append(f"{what}: returned tree is not over the queried inputs/output")
-                if not viol and spec["kind"] == "hyper":
+                if not viol:
                     # the tree answers for itself with the objective it was
                     # stored under: its own score is the stored kind of score
                     ok2, own = guarded(tree.get_score)
@@ -460,7 +466,7 @@ def run_case(spec, sub=None):
                     elif abs(own - score_of(tree)) > 1e-9:
                         viol.append(
                             f"{what}: the returned tree scores itself {own} (its default objective), "
-                            f"but under the optimizer's objective '{spec['minimize']}' - the one its entry "
+                            f"but under the optimizer's objective '{spec['minimize'] if spec['kind'] == 'hyper' else 'flops'}' - the one its entry "
                             f"is stored with - it scores {score_of(tree)}"
                         )
                 if viol:
@@ -537,9 +543,7 @@ def run_case(spec, sub=None):
                         if stored and not any(
                             a[0] == ans[0]
                             and tuple(a[1]) == tuple(ans[1])
-                            # (random-greedy stores log10 flops, update_from_tree the
-                            # tree's own objective: only compare like with like)
-                            and (spec["kind"] != "hyper" or abs(a[2] - ans[2]) < 1e-9)
+                            and abs(a[2] - ans[2]) < 1e-9
                             for a in stored
                         ) and all(a is not None for a in model[fp]):
                             viol.append(
